@@ -381,6 +381,7 @@ pub fn judge(r: &mut Report, prop: &str, steps: &[Step], b: &Built, tr: &Trace) 
 // ---------------------------------------------------------------- enumeration
 
 const TOKENS: [&str; 3] = ["a", "b", "c"];
+static DICT: std::sync::OnceLock<Vec<String>> = std::sync::OnceLock::new();
 
 /// All histories of exactly `depth` steps (model-guided: outcome letters are only branched when the model accepts the call;
 /// tokens are introduced in the order a, b, c).
@@ -437,7 +438,14 @@ fn enumerate(depth: usize, max_tx: usize, out: &mut Vec<Vec<Step>>) {
 
 fn random_walk(rng: &mut Rng, len: usize) -> Vec<Step> {
     let long = "T".repeat(99);
-    let pool: Vec<String> = vec!["a".into(), "b".into(), "c".into(), "".into(), long, "Zähler 7".into()];
+    let mut pool: Vec<String> = vec!["a".into(), "b".into(), "c".into(), "".into(), long, "Zähler 7".into(), "AC".into(), "ACa".into(), "aAC".into(), "A".into()];
+    if let Some(d) = DICT.get() {
+        for _ in 0..3 {
+            if !d.is_empty() {
+                pool.push(rng.pick(d).clone());
+            }
+        }
+    }
     (0..len)
         .map(|_| {
             let t = rng.pick(&pool).clone();
@@ -507,6 +515,7 @@ pub fn run(ctx: &Ctx, id: &str) -> i32 {
         "Feig::new's own configure is part of every scenario (call 1) and must succeed".into(),
     ];
     let schema = Arc::new(refcodec::zvt_schema());
+    let _ = DICT.set(crate::c08::dictionary());
     let threads = ctx.threads;
     let seed = ctx.seed;
     let quick = ctx.quick();
